@@ -100,12 +100,7 @@ class C06(Property):
                     for bad, frags, why in variants:
                         # keep the token shape: use an attached spelling so that any bytes are a value
                         name = (b"--" + node["n"]["long"][0].encode()) if node["n"]["long"] else (b"-" + node["n"]["short"][0].encode())
-                        if node["n"]["long"] or len(node["n"]["short"][0].encode()) == 1:
-                            items = [name + b"=" + bad]
-                        elif not node["adjacent"] and common.standalone(bad) :
-                            items = [name, bad]
-                        else:
-                            continue
+                        items = [name + b"=" + bad]
                         argv = gen.flatten(pieces[:ix]) + items + gen.flatten(pieces[ix + 1:])
                         cases.append(Case("%sv%d" % (gid, j), opts, argv,
                                           tags={"role": "bad", "group": gid, "why": why, "frags": frags, "value": bad,
